@@ -19,6 +19,8 @@ func main() {
 		cmdFuncs(os.Args[2:])
 	case "check":
 		cmdCheck(os.Args[2:])
+	case "baseline":
+		cmdBaseline(os.Args[2:])
 	default:
 		fmt.Fprintln(os.Stderr, "unknown command", os.Args[1])
 		os.Exit(2)
@@ -42,6 +44,7 @@ func cmdFuncs(args []string) {
 	contracts := fs.String("contracts", "", "contract file (default <repo>/internal/ergo/verif_contracts.go)")
 	timeout := fs.Int("timeout", 10, "per-query timeout (s)")
 	dump := fs.String("dump", "", "write SMT queries of failing obligations here")
+	dumpAll := fs.Bool("dumpall", false, "dump every solved query")
 	all := fs.Bool("all", false, "wait for all solvers")
 	only := fs.String("only", "", "substring filter on obligation names")
 	_ = fs.Parse(args)
@@ -89,7 +92,7 @@ func cmdFuncs(args []string) {
 		_ = os.MkdirAll(*dump, 0755)
 		for _, r := range results {
 			for _, o := range r.Obligations {
-				if o.Result != nil && o.Result.Status != "unsat" {
+				if o.Result != nil && (*dumpAll || o.Result.Status != "unsat") {
 					_ = os.WriteFile(filepath.Join(*dump, sanitize(o.Name)+".smt2"), []byte(r.Enc.queryFor(o)+"(check-sat)\n"), 0644)
 				}
 			}
@@ -97,7 +100,3 @@ func cmdFuncs(args []string) {
 	}
 }
 
-func cmdCheck(args []string) {
-	fmt.Fprintln(os.Stderr, "not implemented yet")
-	os.Exit(2)
-}
